@@ -1,5 +1,6 @@
 import Brax.Spec.MjKinematics
 import Brax.Model.ScanLevels
+import Brax.Model.ScanTypes
 /-! line protocol driver for C01/C08: `fwd <sys> <q> <qd>`, `mjfwd <sys> <q>`, `w2j <sys> <x> <xd>` -/
 open Brax
 
@@ -74,6 +75,23 @@ def stepF (line : String) : String :=
       let ins := Kin.linkSlices t q qd ([] : List (DofP Int))
       let h := fun (xs : List Int) => (xs.foldl (fun (acc : Int × Int) x => (acc.1 * 10 + x, acc.2 + 1)) (0, 0)).1
       joinToks (ins.flatMap fun l => [toString (h l.q), toString (h l.qd)])
+    | none => "bad-args"
+  | "typescoded" :: kind :: ts =>
+    -- Layer B stage 2: the type-grouped transcription of scan.link_types, output kinds 'l', 'q', 'd'
+    let p : Rd (List LinkType × List Int × List Int) := do
+      let t ← Rd.linkTypes; let q ← Rd.list Rd.int; let qd ← Rd.list Rd.int; pure (t, q, qd)
+    match Rd.run p ts with
+    | some (t, q, qd) =>
+      let h := fun (xs : List Int) => xs.foldl (fun (acc : Int) x => acc * 10 + x) 0
+      let dz : DofP Int := ⟨⟨⟨0, 0, 0⟩, ⟨0, 0, 0⟩⟩, 0, 0, 0, none, none, 0⟩
+      let ds := qd.map fun _ => dz
+      let run := fun (g : Kin.LinkIn Int → List Int) (wo : LinkType → Nat) =>
+        joinToks ((Kin.scanLinkTypesCoded g wo t q qd ds 0 dz 0).map toString)
+      match kind with
+      | "l" => run (fun l => [h l.q + 7 * h l.qd]) (fun _ => 1)
+      | "q" => run (fun l => l.q.map fun x => x * 3 + h l.qd) LinkType.qWidth
+      | "d" => run (fun l => l.qd.map fun x => x * 2 + h l.q) LinkType.qdWidth
+      | _ => "bad-args"
     | none => "bad-args"
   | "w2j" :: ts =>
     let p : Rd (Sys Float × List (Tf Float) × List (Motion Float)) := do
